@@ -47,11 +47,19 @@ var leafTypes = []reflect.Type{
 	reflect.TypeOf(time.Duration(0)), reflect.TypeOf(""),
 }
 
+var tomlLive = true // genDoc: the TOML decoder reads the value being generated (its key is the one TOML uses, at every level)
+
 var wrapMode bool // set per case: set-typed leaves only occur when the decoders are wrapped
 
 func genLeaf(r *coqfmt.Rng) reflect.Type {
 	tup, _ := rty.TextUTypes()
-	switch x := r.Intn(24); {
+	switch x := r.Intn(27); {
+	case x == 24:
+		return tTime
+	case x == 25:
+		return reflect.PtrTo(tTime)
+	case x == 26:
+		return reflect.MapOf(reflect.TypeOf(""), tTime)
 	case x == 20:
 		return tup
 	case x == 21:
@@ -125,12 +133,68 @@ func genType(r *coqfmt.Rng, depth, maxDepth, width int) reflect.Type {
 	return reflect.StructOf(fields)
 }
 
+var tTime = reflect.TypeOf(time.Time{})
+
+// a time.Time is printed as an opaque leaf: the instant as Unix seconds and nanoseconds; the
+// zero instant (what an unset field holds) as the empty text
+var printer = rty.Printer{
+	LeafTy: func(t reflect.Type) (string, bool) {
+		if t == tTime {
+			return "(TTextU " + coqfmt.Str("time.Time") + " true)", true
+		}
+		return "", false
+	},
+	LeafVal: func(v reflect.Value) (string, bool) {
+		if v.Type() == tTime {
+			tm := v.Interface().(time.Time)
+			if tm.IsZero() {
+				return "(VText " + coqfmt.Str("") + ")", true
+			}
+			return fmt.Sprintf("(VList [VInt (%d)%%Z; VInt (%d)%%Z])", tm.Unix(), tm.Nanosecond()), true
+		}
+		return "", false
+	},
+}
+
 var tDur = reflect.TypeOf(time.Duration(0))
 var tIP = reflect.TypeOf(net.IP(nil))
 var tSet = reflect.TypeOf(map[string]struct{}(nil))
 
 var goodDur = []string{"1h30m", "250ms", "-5s", "0", "1ns", "10h", "100ms5us", "2m0s", "+3us"}
 var strPool = []string{"", "x", "hello world", "a,b", "q\"uote", "back\\slash", "tab\there", "line\nbreak", "é", "true", "123", "[x]", "{y}", "k: v", "# c", "'s'"}
+
+// genTime draws a timestamp every format reads: RFC 3339 with two-digit fields, an optional
+// fraction of up to 12 digits, Z or a numeric offset.
+func genTime(r *coqfmt.Rng) string {
+	if r.Chance(1, 12) {
+		return coqfmt.Pick(r, []string{"0001-01-01T00:00:00Z", "0001-01-01T02:30:00+02:30", "0000-01-01T00:00:00Z",
+			"9999-12-31T23:59:59.999999999Z", "1970-01-01T00:00:00Z", "1969-12-31T23:59:59.5-00:00", "2020-02-29T12:00:00+14:00"})
+	}
+	year := coqfmt.Pick(r, []int{0, 1, 4, 100, 400, 1600, 1900, 1969, 1970, 1999, 2000, 2020, 2021, 2038, 2100, 9999})
+	if r.Chance(1, 2) {
+		year = r.Intn(10000)
+	}
+	month := 1 + r.Intn(12)
+	dim := []int{31, 28, 31, 30, 31, 30, 31, 31, 30, 31, 30, 31}[month-1]
+	if month == 2 && year%4 == 0 && (year%100 != 0 || year%400 == 0) {
+		dim = 29
+	}
+	day := 1 + r.Intn(dim)
+	if r.Chance(1, 4) {
+		day = dim
+	}
+	s := fmt.Sprintf("%04d-%02d-%02dT%02d:%02d:%02d", year, month, day, r.Intn(24), r.Intn(60), r.Intn(60))
+	if r.Chance(1, 2) {
+		s += "."
+		for n := 1 + r.Intn(12); n > 0; n-- {
+			s += fmt.Sprintf("%d", r.Intn(10))
+		}
+	}
+	if r.Chance(1, 2) {
+		return s + "Z"
+	}
+	return s + fmt.Sprintf("%s%02d:%02d", coqfmt.Pick(r, []string{"+", "-"}), r.Intn(24), coqfmt.Pick(r, []int{0, 0, 30, 45, 59}))
+}
 
 // genDoc draws a document for type t.  bad > 0: one ill-typed or out-of-range value may be planted.
 func genDoc(r *coqfmt.Rng, t reflect.Type, bad *int) *doc {
@@ -152,6 +216,19 @@ func genDoc(r *coqfmt.Rng, t reflect.Type, bad *int) *doc {
 			return coqfmt.Pick(r, []*doc{dS("bogus"), dS("1.2.3"), dS("256.1.1.1"), dS("01.2.3.4"), dS("1.2.3.4.5")})
 		}
 		return dS(fmt.Sprintf("%d.%d.%d.%d", r.Intn(256), r.Intn(256), r.Intn(256), r.Intn(256)))
+	case t == tTime:
+		if plant() {
+			// a timestamp no format accepts, a string (a timestamp for all but TOML), another kind.
+			// An invalid datetime literal makes the whole TOML text invalid, so one is only planted
+			// under a key the TOML decoder reads.
+			if !tomlLive {
+				return coqfmt.Pick(r, []*doc{dS("notatime"), dS(""), dI(5), dB(true), dL(), dS("2021-03-04T05:06:07Z"), dS("2021-13-04T05:06:07Z")})
+			}
+			return coqfmt.Pick(r, []*doc{dT("2021-02-29T05:06:07Z"), dT("2021-13-04T05:06:07Z"), dT("2021-03-04T24:06:07Z"),
+				dT("2021-03-04T05:06:60Z"), dT("2021-03-04T05:06:07+25:00"), dS("notatime"), dS(""), dI(5), dB(true), dL(),
+				dS("2021-03-04T05:06:07Z"), dS("2021-03-04T5:06:07,5Z"), dS("2021-03-04T05:06:07+24:60")})
+		}
+		return dT(genTime(r))
 	case t == tSet:
 		if plant() {
 			return coqfmt.Pick(r, []*doc{dS("notalist"), dM(kv{"a", dM()}), dL(dL(dS("x")))})
@@ -273,8 +350,15 @@ func genDoc(r *coqfmt.Rng, t reflect.Type, bad *int) *doc {
 					keys = append(keys, v)
 				}
 			}
+			tomlKey := f.Tag.Get("toml")
+			if tomlKey == "" {
+				tomlKey = f.Tag.Get("dials")
+			}
 			for _, k := range keys {
+				saved := tomlLive
+				tomlLive = saved && k == tomlKey
 				kvs = append(kvs, kv{k, genDoc(r, f.Type, bad)})
+				tomlLive = saved
 			}
 		}
 		if r.Chance(1, 3) {
@@ -366,6 +450,13 @@ func fromAny(v interface{}) (*doc, error) {
 		return dI(x), nil
 	case uint64:
 		return dU(x), nil
+	case time.Time:
+		// TOML's offset datetime (yaml.v2 also resolves plain scalars to timestamps, but what it does
+		// with one depends on its spelling: those stay outside the document language)
+		if curFmt != 2 {
+			return nil, errOutside
+		}
+		return dT(x.Format(time.RFC3339Nano)), nil
 	case json.Number:
 		var i int64
 		if _, err := fmt.Sscanf(string(x), "%d", &i); err != nil || fmt.Sprintf("%d", i) != string(x) {
@@ -581,7 +672,7 @@ func decodeWith(wrap bool, f int, text string, PT reflect.Type) (v reflect.Value
 func outcomeTerm(v reflect.Value, err error, panicked bool) string {
 	ok := ""
 	if err == nil && !panicked {
-		ok = rty.StructFieldsTerm(v)
+		ok = printer.StructFieldsTerm(v)
 	}
 	return driver.Outcome(ok, err, panicked)
 }
@@ -623,6 +714,9 @@ func run(raw json.RawMessage) driver.Result {
 		if planted > 0 {
 			tags = append(tags, "planted-bad-value")
 		}
+		if hasKind(d, dTime) {
+			tags = append(tags, "timestamp")
+		}
 		switch nerr {
 		case 0:
 			tags = append(tags, "all-ok")
@@ -632,7 +726,7 @@ func run(raw json.RawMessage) driver.Result {
 			tags = append(tags, "mixed-outcomes")
 		}
 		return driver.Result{
-			Coq:        fmt.Sprintf("Agree %s %s %s %s", coqfmt.Bool(in.Wrap), rty.FieldsTerm(T), d.term(), strings.Join(terms, " ")),
+			Coq:        fmt.Sprintf("Agree %s %s %s %s", coqfmt.Bool(in.Wrap), printer.FieldsTerm(T), d.term(), strings.Join(terms, " ")),
 			Kind:       "agree",
 			Nontrivial: len(d.kvs) >= 2 && docDepth(d) >= 2,
 			Tags:       tags,
@@ -660,19 +754,39 @@ func run(raw json.RawMessage) driver.Result {
 			return driver.Result{Coq: fmt.Sprintf("Skipped %d", in.Fmt), Kind: "corrupt", Tags: tags, Direct: direct}
 		}
 		tags = append(tags, "lib-accepts")
+		if hasKind(gd, dTime) {
+			tags = append(tags, "toml-datetime")
+		}
 		if err != nil {
 			tags = append(tags, "dials-err")
 		} else {
 			tags = append(tags, "dials-ok")
 		}
 		return driver.Result{
-			Coq:        fmt.Sprintf("Corrupt %d %s %s %s %s", in.Fmt, coqfmt.Bool(in.Wrap), rty.FieldsTerm(T), gd.term(), outcomeTerm(v, err, p)),
+			Coq:        fmt.Sprintf("Corrupt %d %s %s %s %s", in.Fmt, coqfmt.Bool(in.Wrap), printer.FieldsTerm(T), gd.term(), outcomeTerm(v, err, p)),
 			Kind:       "corrupt",
 			Nontrivial: true,
 			Tags:       tags,
 			Direct:     direct,
 		}
 	}
+}
+
+func hasKind(d *doc, k kind) bool {
+	if d.kind == k {
+		return true
+	}
+	for _, e := range d.kvs {
+		if hasKind(e.v, k) {
+			return true
+		}
+	}
+	for _, e := range d.list {
+		if hasKind(e, k) {
+			return true
+		}
+	}
+	return false
 }
 
 func docDepth(d *doc) int {
